@@ -1,2 +1,11 @@
 """pv - harness binding the TLA+ specification family in /verif/spec to the
 real openstack/placement code in /repo (see /verif/DESIGN.md)."""
+
+# The tree under test: /repo, or the scratch copy named by PV_REPO (used only
+# by tools/ that measure the checks against seeded / benign patches without
+# touching /repo).  Registered commands never set PV_REPO.
+import os as _os
+import sys as _sys
+REPO = _os.environ.get('PV_REPO', '/repo')
+if REPO not in _sys.path:
+    _sys.path.insert(0, REPO)
